@@ -638,6 +638,52 @@ func c04(r *Run) {
 				map[string]any{"registered_first": a, "parsed_second": b, "render_of_second": string(w.buf), "err": fmt.Sprint(err)})
 		}
 	}()
+	// --- keep-format is part of what is parsed: Parse(src, keepFmt) returns the tree of THAT pair ---
+	// (random histories of Parse+Register over sources with line breaks, both flags; every Parse result is
+	// identified by its dump against the dump taken on an empty registry)
+	for it := 0; it < r.N(300, 5000); it++ {
+		srcs := []string{"E\n\t{%= v %}\n", "head\n  {% if v == \"!\" %}\n\tT\n{% endif %}\ntail", "a\n\n\tb"}
+		type pk struct {
+			s int
+			k bool
+		}
+		ref := map[pk]string{}
+		for si, s := range srcs {
+			for _, k := range []bool{false, true} {
+				dyntpl.VerifResetRegistry()
+				t, err := dyntpl.Parse([]byte(s), k)
+				if err != nil {
+					r.Internal("keepfmt source does not parse")
+					return
+				}
+				ref[pk{si, k}] = string(dyntpl.VerifDumpTree(t))
+			}
+			if ref[pk{si, false}] == ref[pk{si, true}] {
+				r.Internal("keepfmt source is insensitive to the flag")
+				return
+			}
+		}
+		dyntpl.VerifResetRegistry()
+		var hist []string
+		n := 2 + r.Rng.Intn(6)
+		for j := 0; j < n; j++ {
+			p := pk{r.Rng.Intn(len(srcs)), r.Rng.Intn(2) == 0}
+			t, err := dyntpl.Parse([]byte(srcs[p.s]), p.k)
+			hist = append(hist, fmt.Sprintf("Parse(src%d, keepFmt=%v)", p.s, p.k))
+			r.Count("keepfmt:"+strings.Join(hist, ";"), j > 0)
+			if err != nil || string(dyntpl.VerifDumpTree(t)) != ref[p] {
+				r.Violate("keepfmt-parse "+strings.Join(hist, ";"), "Parse returned a tree that is not the tree of its own (source, keepFmt) pair",
+					map[string]any{"history": hist, "source": srcs[p.s], "keepFmt": p.k, "dump": string(dyntpl.VerifDumpTree(t)), "expected_dump": ref[p]})
+				break
+			}
+			if r.Rng.Intn(3) > 0 {
+				key := fmt.Sprintf("k%d", r.Rng.Intn(3))
+				dyntpl.RegisterTplKey(key, t)
+				hist = append(hist, "RegisterTplKey("+key+")")
+			}
+		}
+		r.Dist["keepfmt_histories"]++
+	}
 	dyntpl.VerifResetRegistry()
 }
 
